@@ -344,6 +344,16 @@ def run_case(res, case):
             if not close(t_aux, expt):
                 return viol("wrong_value", "jvp through the aux output of grad_and_aux deviates", "grad_and_aux:nested")
             ops_checked.append("nested_primal_aux")
+            # ... also when the operator is taken w.r.t. an argument the function IGNORES (its derivative is an exact
+            # zero) while the primal it hands back depends on the enclosing variable through another argument
+            ign = lambda dummy, x: L_ag(a0, x, b0, scale=scale)
+            g_ign = grad(lambda x: value_and_grad(ign, 0)(1.7, x)[0])(x0)
+            j_ign = grad(lambda x: make_vjp(ign, 0)(1.7, x)[1])(x0)
+            f_ign = grad(lambda x: make_jvp(ign, 0)(1.7, x)(1.0)[0])(x0)
+            for lab_, val_ in (("value_and_grad", g_ign), ("make_vjp", j_ign), ("make_jvp", f_ign)):
+                if not close(val_, gexp):
+                    return viol("wrong_value", "the primal handed back by %s (taken w.r.t. an argument the function ignores) lost its dependence on the enclosing variable: gradient %s" % (lab_, common.brief(onp.asarray(val_))), lab_ + ":primal_of_ignored_argnum")
+            ops_checked.append("primal_of_ignored_argnum")
             # mixed derivative: an operator result taken at a CONSTANT point, differentiated by an enclosing
             # operator w.r.t. another parameter the function closes over (here `a`): d/da J_x f(a, x0, b)
             for pname, p0_, Jx in (("a", a0, lambda aa: jacobian(lambda xx: f_ag(aa, xx, b0, scale=scale))(x0)), ("scale", scale, lambda ss: jacobian(lambda xx: f_ag(a0, xx, b0, scale=ss))(x0))):
